@@ -721,14 +721,24 @@ def mr_key_class(v):
 
 
 def mr_key(m, exp, got, j=None):
-    """multiref:<output>:<kind[/gc]>+...[:lazy][:so]:[slot<j>:]expect=<class>:got=<class>.
-    j = None: the link as a whole (error / crash on one side), classes of all slots joined by +;
-    else the slot of referencing object j, classes as in violation_key."""
+    """j = None, the link as a whole (error / crash on one side):
+         multiref:<output>:<kind[/gc]>+...[:lazy][:so]:expect=<class>:got=<class>
+       the referencing objects in command-line order, classes of all slots joined by +, in both
+       lists equal neighbours written once.
+       j given, the slot of referencing object j:
+         multiref:<output>:<kind of j>:others=<kind[/gc]>,...[:lazy][:so]:expect=<class>:got=<class>
+       others = the distinct kinds of the other referencing objects, sorted; classes as in
+       violation_key."""
     seq, refs, arr, out = m
     feats = (":lazy" if "AL" in seq else "") + (":so" if any(CONT[k] == "D" for k in seq) else "")
-    head = "multiref:%s:%s%s" % (out, mr_refs_text(refs), feats)
     if j is None:
-        return "%s:expect=%s:got=%s" % (head, mr_key_class(exp), mr_key_class(got))
+        runs = [r for i, r in enumerate(refs) if i == 0 or r != refs[i - 1]]
+        def runs_of(v):
+            parts = mr_key_class(v).split("+")
+            return "+".join(c for i, c in enumerate(parts) if i == 0 or c != parts[i - 1])
+        return "multiref:%s:%s%s:expect=%s:got=%s" % (out, mr_refs_text(runs), feats,
+                                                      runs_of(exp), runs_of(got))
+    others = sorted({mr_refs_text([r]) for i, r in enumerate(refs) if i != j})
     ev, gv = ("ok", exp[1][j]), ("ok", got[1][j])
     e, g = key_class(ev), key_class(gv)
     if e == g == "def":
@@ -736,7 +746,8 @@ def mr_key(m, exp, got, j=None):
         if e.split("#")[0] != g.split("#")[0]:
             e, g = e.split("#")[0], g.split("#")[0]
         e, g = "def(%s)" % e, "def(%s)" % g
-    return "%s:slot%d:expect=%s:got=%s" % (head, j, e, g)
+    return "multiref:%s:%s:others=%s%s:expect=%s:got=%s" % (out, refs[j][0], ",".join(others),
+                                                           feats, e, g)
 
 
 def mr_member_json(m):
@@ -873,7 +884,7 @@ def multiref_phase(chk, base, sdir):
             return False
         if not chk.thorough:     # one provider: two live refs of different kinds straddling it
             return arr == (0, 1) and refs[0][0] != refs[1][0] and all(l for _k, l in refs)
-        return len(refs) == 2 or all(l for _k, l in refs)
+        return len(refs) == 2 or (all(l for _k, l in refs) and 0 in arr and 1 in arr)
     sub = [(mid, allm[mid]) for mid in expect if in_sub(allm[mid])]
     pack_checked = pack_mismatch = 0
     mismatch_samples = []
@@ -1161,7 +1172,7 @@ def main():
         % mr["wild_kept_an_unreferenced_section_not_judged"],
         "multiref packs validated unpacked on: all members without provider, and of the members "
         "with one provider %s: %d members, %d mismatches" % (
-            "those with 2 referencing objects and those with 3 live ones" if chk.thorough else
+            "those with 2 referencing objects and those with 3 live ones straddling it" if chk.thorough else
             "those whose two referencing objects are live, differ in kind and straddle it", mr["pack_validation_unpacked_members"],
             mr["pack_validation_mismatches"]),
     ]
